@@ -1240,13 +1240,13 @@ impl<T: Storage> Raft<T> {
         self.state = StateRole::Leader;
 
         let last_index = self.raft_log.last_index();
-        // If there is only one peer, it becomes leader after campaigning
-        // so all logs must be persisted.
-        // If not, it becomes leader after sending RequestVote msg.
-        // Since all logs must be persisted before sending RequestVote
-        // msg and logs can not be changed when it's (pre)candidate, the
-        // last index is equal to persisted index when it becomes leader.
-        assert_eq!(last_index, self.raft_log.persisted);
+        // With several voters all logs are persisted before the RequestVote
+        // msg is sent and can not change while it's (pre)candidate, so the last
+        // index equals the persisted index here. A single voter becomes leader
+        // inside its own campaign and may still hold entries it appended as a
+        // follower that are not persisted yet: `reset` has set its own matched
+        // index to `persisted`, and `on_persist_entries` advances it (and the
+        // commit index) when the persistence of that tail is reported.
 
         // Update uncommitted state
         self.uncommitted_state.uncommitted_size = 0;
